@@ -28,6 +28,11 @@ type Profile struct {
 	Backfill    int // weight of dump-feed snapshot checks
 	FeedsMax    int // number of live feeds to start (0..FeedsMax)
 	MultiHandle bool
+	Extra       []ExtraAction
+	Setup       func(r *Run)                 // runs right after the world is created (also in replays)
+	Finish      func(r *Run)                 // extra end-of-history checks
+	JSONBody    func(rt *rapid.T) []byte     // overrides the generator of JSON bodies
+	Config      func(rt *rapid.T, c *Config) // adjusts the generated world configuration
 }
 
 var defaultKeys = []string{"a", "b", "kéy", "c"}
@@ -120,7 +125,12 @@ func mustJSON(v any) []byte {
 
 // genBody draws a document body. class: "json" (valid JSON, canonical encoding), "obj" (JSON
 // object), "raw" (anything).
+var jsonBodyOverride func(rt *rapid.T) []byte
+
 func genBody(rt *rapid.T, class string, small bool) []byte {
+	if jsonBodyOverride != nil && (class == "obj" || class == "json") && chance(rt, 85, "body.override") {
+		return jsonBodyOverride(rt)
+	}
 	if small && chance(rt, 12, "body.big") {
 		n := rapid.IntRange(150, 420).Draw(rt, "body.bigsize")
 		return mustJSON(map[string]any{"pad": strings.Repeat("x", n)})
@@ -172,6 +182,9 @@ func genXattrValue(rt *rapid.T, label string, object bool) string {
 		m := genJSONObject(rt, 2, label)
 		if chance(rt, 50, label+".nest") {
 			m["n"] = map[string]any{"c": "", "d": 1.0}
+		}
+		if chance(rt, 40, label+".seq") {
+			m["seq"] = float64(rapid.IntRange(0, 9).Draw(rt, label+".seqn"))
 		}
 		return string(mustJSON(m))
 	}
@@ -302,6 +315,9 @@ func genConfig(rt *rapid.T, pr *Profile) Config {
 		fc.Multi = ncoll > 1 && chance(rt, 25, "feed.multi")
 		cfg.Feeds = append(cfg.Feeds, fc)
 	}
+	if pr.Config != nil {
+		pr.Config(rt, &cfg)
+	}
 	return cfg
 }
 
@@ -311,7 +327,7 @@ var priorClasses = []string{"absent", "live", "liveX", "tomb", "tombX"}
 
 // genTarget picks collection and key, aiming at a drawn prior-state class.
 func genTarget(rt *rapid.T, w *World, pr *Profile) (int, string) {
-	c := rapid.IntRange(0, len(w.Cfg.Colls)-1).Draw(rt, "coll")
+	c := pickColl(rt, w, "coll")
 	keys := pr.Keys
 	if len(keys) == 0 {
 		keys = defaultKeys
@@ -347,6 +363,8 @@ func GenOp(rt *rapid.T, w *World, pr *Profile) Op {
 }
 
 func genOp1(rt *rapid.T, w *World, pr *Profile) Op {
+	jsonBodyOverride = pr.JSONBody
+	defer func() { jsonBodyOverride = nil }()
 	ops := pr.Ops
 	if ops == nil {
 		ops = allDocOps
@@ -621,4 +639,15 @@ func genSubdocPath(rt *rapid.T, p St) string {
 		cur = next
 	}
 	return strings.Join(comps, ".")
+}
+
+// pickColl draws the index of a collection that currently exists.
+func pickColl(rt *rapid.T, w *World, label string) int {
+	var live []int
+	for i := range w.Cfg.Colls {
+		if !w.Model.Colls[i].Dropped {
+			live = append(live, i)
+		}
+	}
+	return pick(rt, live, label)
 }
